@@ -4,6 +4,7 @@ Hdl21 Parameters and Param-Classes
 
 # Std-Lib Imports
 import dataclasses, inspect, json, hashlib
+from decimal import Decimal
 from typing import Optional, Any, Type, TypeVar, Dict
 
 # PyPi Imports
@@ -267,6 +268,12 @@ def _number_by_value(val: Any) -> Any:
     and hence must share a name. Integer-valued floats are named as that integer."""
     if isinstance(val, float) and val.is_integer():
         return int(val)
+    if isinstance(val, Decimal) and val.is_finite():
+        # `Decimal`s likewise: `Decimal("1.0")`, `Decimal("1")` and `1` are equal, as are `Decimal("1.5")` and `1.5`.
+        if val == val.to_integral_value():
+            return int(val)
+        as_float = float(val)
+        return as_float if Decimal(as_float) == val else str(val.normalize())
     if isinstance(val, (list, tuple)):
         return [_number_by_value(v) for v in val]
     if isinstance(val, dict):
